@@ -250,6 +250,14 @@ def fragments(repo: Repo, gen: str) -> list[Fragment]:
                     break
             if extra_dep:
                 break
+        if extra_dep is None and gen != "_gen_get_properties_func":
+            # the child accessors list every child field: how the field is declared (init / compare) must not matter either
+            for cmp_, ini_ in ((True, False), (False, True), (False, False)):
+                f2 = Fld(d["name"], cmp_, ini_)
+                cap2 = run_generator(repo, gen, [(f2, TypeInfo(d.get("is_collection", False)))])
+                if (cap2.body or "") != (cap.body or ""):
+                    extra_dep = f"compare={cmp_!r}, init={ini_!r}"
+                    break
         text = "\n".join("    " + ast.unparse(x).replace("\n", "\n    ") for x in srt) + "\n"
         fr = Fragment(gen, GENERATORS[gen], d, text, srt, f)
         fr.extra_dep = extra_dep  # type: ignore[attr-defined]
